@@ -1,271 +1,109 @@
-//! C10 Trust anchors are bound to their TAL key.
-//!
-//! One TAL with 1–3 URIs (https through the in-harness HTTPS server, rsync through the fake rsync),
-//! 2–3 consecutive runs of the real engine over a persistent cache. Per URI and run the server
-//! offers: the matching certificate, a self-signed certificate for another key, undecodable bytes,
-//! an expired certificate with the TAL key, nothing (404 / no such file), or fails mid-transfer
-//! (https: connection cut; rsync: module unreachable).
-//! Oracle (statement + engine.rs load_ta documentation): URIs are tried https-first in TAL order; the
-//! effective certificate of a URI is the download if it decodes, else the stored copy; the first
-//! effective certificate whose key equals the TAL key and which validates as a trust anchor is
-//! used, else the TAL contributes nothing. The stored copy of a URI after a run is the last
-//! decodable download, never undecodable bytes.
+//! C10 Trust anchors are bound to their TAL key (rsync transport leg).
 
-use std::collections::{BTreeMap, BTreeSet};
-
-use bytes::Bytes;
 use proptest::prelude::*;
-use rpki::repository::tal::TalUri;
-use serde::{Deserialize, Serialize};
 
 use crate::core::*;
 use crate::erpki::*;
-use crate::erun::scratch_base;
-use crate::httpsrv::*;
-use crate::pay::MItem;
-use crate::rpkigen as gen;
+use crate::erun::*;
+use crate::escen::*;
 
-pub const IMPLEMENTED: bool = true;
-
-#[derive(Serialize, Deserialize, Clone, Copy, Debug, PartialEq, Eq)]
-pub enum Offer {
-    Match,
-    OtherKey,
-    Garbage,
-    Expired,
-    NotFound,
-    /// https: connection cut in the body; rsync: module unreachable
-    Broken,
-}
-
-#[derive(Serialize, Deserialize, Clone, Debug, PartialEq, Eq)]
-pub struct Case {
-    /// per TAL URI: true = https, false = rsync (file order in the TAL)
-    pub https: Vec<bool>,
-    /// runs x uris
-    pub runs: Vec<Vec<Offer>>,
-}
-
-fn offer() -> impl Strategy<Value = Offer> {
-    prop_oneof![
-        4 => Just(Offer::Match),
-        2 => Just(Offer::OtherKey),
-        2 => Just(Offer::Garbage),
-        2 => Just(Offer::Expired),
-        2 => Just(Offer::NotFound),
-        2 => Just(Offer::Broken),
-    ]
-}
-
-fn case_strategy() -> impl Strategy<Value = Case> {
-    (1usize..=3, 2usize..=3).prop_flat_map(|(n, r)| (prop::collection::vec(any::<bool>(), n..=n), prop::collection::vec(prop::collection::vec(offer(), n..=n), r..=r))).prop_map(|(https, runs)| Case { https, runs })
-}
-
-fn scenario() -> Scenario {
-    Scenario {
-        cfg: Cfg::default(),
-        cas: vec![Ca {
-            parent: None,
-            key: 0,
-            module: 0,
-            not_after: 86400 * 30,
-            cert_fault: None,
-            versions: vec![Version { number: 1, this_off: -600, next_off: 86400, crl_next_off: 86400, ee_after_off: 86400, objs: vec![Obj { kind: ObjKind::Roa { extra: 1, maxlen_delta: 0, v6: false }, not_after: 86400, fault: None }], fault: None }],
-            extra_res: None,
-        }],
-        steps: vec![Step { publish: vec![0], fail_modules: vec![], offline: false, stale: None }],
+fn scenario(words: &[u16]) -> Scenario {
+    let mut hp = HistProfile::default();
+    hp.base.fault_16 = 0;
+    hp.base.obj_faults = false;
+    hp.base.pp_faults = false;
+    hp.base.cert_faults = false;
+    hp.base.max_cas = 4;
+    hp.base.max_tals = 2;
+    hp.base.versions = 2;
+    hp.base.modules = 3;
+    hp.incomplete_16 = 0;
+    hp.rollback_16 = 1;
+    hp.fail_module_16 = 3;
+    hp.offline_16 = 2;
+    hp.max_steps = 4;
+    let mut sc = history_run(words, &hp);
+    let mut d = D::new(words);
+    for _ in 0..17 {
+        d.next();
     }
-}
-
-fn uri_of(i: usize, https: bool) -> String {
-    if https {
-        format!("https://ta-h{}.rpki.test/ta/ta.cer", i)
-    } else {
-        format!("rsync://ta-r{}.rpki.test/ta/ta.cer", i)
+    let roots: Vec<usize> = sc.cas.iter().enumerate().filter(|(_, c)| c.parent.is_none()).map(|(i, _)| i).collect();
+    for r in &roots {
+        let extra = d.below(3);
+        sc.cas[*r].ta_alt = (0..extra).map(|_| d.below(3)).collect();
     }
-}
-
-fn decodable(o: Offer) -> bool {
-    matches!(o, Offer::Match | Offer::OtherKey | Offer::Expired)
-}
-
-fn prop(c: &Case, info: &mut CaseInfo) -> Verdict {
-    let sc = scenario();
-    let mut world = World::new(&sc, scratch_base());
-    let srv = HttpsServer::start();
-    let n = c.https.len();
-    // the TAL: URIs in file order
-    let uris: Vec<String> = (0..n).map(|i| uri_of(i, c.https[i])).collect();
-    std::fs::write(world.dir.path().join("tals").join("tal0.tal"), gen::tal_text(&uris, sc.cas[0].key)).unwrap();
-    // certificates
-    let good = world.ca_certs[&0].clone();
-    let res = cert_res(&sc, 0);
-    let other = gen::issue_ta(7, &res, gen::validity(world.now, -86400, 86400 * 30), &ca_dir_uri(&sc, 0), &mft_uri(&sc, 0), None, 1);
-    let expired = gen::issue_ta(0, &res, gen::validity(world.now, -86400 * 30, -3600), &ca_dir_uri(&sc, 0), &mft_uri(&sc, 0), None, 1);
-    let garbage = Bytes::from_static(b"\x30\x82\x01\x00 this is not a certificate at all");
-    let bytes_of = |o: Offer| -> Option<Bytes> {
-        match o {
-            Offer::Match => Some(good.clone()),
-            Offer::OtherKey => Some(other.clone()),
-            Offer::Expired => Some(expired.clone()),
-            Offer::Garbage => Some(garbage.clone()),
-            Offer::NotFound | Offer::Broken => None,
-        }
-    };
-    let expected_items: BTreeSet<MItem> = obj_items(0, 0, 0, &sc.cas[0].versions[0].objs[0]).into_iter().collect();
-    // order in which the engine tries the URIs: https first, file order otherwise (Tal::prefer_https, stable)
-    let mut order: Vec<usize> = (0..n).filter(|i| c.https[*i]).collect();
-    order.extend((0..n).filter(|i| !c.https[*i]));
-
-    // model state
-    let mut stored: BTreeMap<usize, Bytes> = BTreeMap::new();
-    let mut rsync_local: BTreeMap<usize, Bytes> = BTreeMap::new();
-    let ex = empty_exceptions();
-    let mut nontrivial = false;
-    for (r, offers) in c.runs.iter().enumerate() {
-        // --- servers
-        world.publish(&sc.steps[0]);
-        for i in 0..n {
-            let o = offers[i];
-            if c.https[i] {
-                let host = format!("ta-h{}.rpki.test", i);
-                let resp = match o {
-                    Offer::NotFound => Resp::status(404),
-                    Offer::Broken => Resp::ok(good.to_vec()).drop_after(good.len() / 2),
-                    _ => Resp::ok(bytes_of(o).unwrap().to_vec()).chunked(r % 2 == 1),
-                };
-                srv.set(&host, "/ta/ta.cer", resp);
-            } else {
-                let hostdir = world.srv().join(format!("ta-r{}.rpki.test", i));
-                let moddir = hostdir.join("ta");
-                std::fs::create_dir_all(&moddir).unwrap();
-                match o {
-                    Offer::Broken => std::fs::write(hostdir.join("ta.fail"), b"").unwrap(),
-                    Offer::NotFound => {}
-                    _ => std::fs::write(moddir.join("ta.cer"), bytes_of(o).unwrap()).unwrap(),
+    for (n, step) in sc.steps.iter_mut().enumerate() {
+        for r in &roots {
+            for u in 0..(1 + sc.cas[*r].ta_alt.len()) {
+                // the very first URI in the first run is mostly good so that something gets stored
+                let st = if n == 0 && u == 0 { d.pick(&[0u8, 0, 0, 1, 2, 4]) } else { d.pick(&[0u8, 0, 1, 2, 3, 4, 4, 2]) };
+                if st != 0 {
+                    step.ta_serve.push((*r, u, st));
                 }
             }
+            if n > 0 && d.chance(2, 16) {
+                step.foreign_tal_key.push(*r);
+            }
         }
-        // --- model
-        let mut used: Option<usize> = None;
-        let mut attempted: BTreeSet<usize> = BTreeSet::new();
-        for &i in &order {
-            attempted.insert(i);
-            let o = offers[i];
-            let fetched: Option<(Bytes, bool)> = if c.https[i] {
-                match o {
-                    Offer::NotFound => None,
-                    Offer::Broken => Some((Bytes::new(), false)), // partial bytes, never decodable
-                    _ => Some((bytes_of(o).unwrap(), decodable(o))),
-                }
-            } else {
-                // the rsync copy of the module persists when the transfer fails
-                match o {
-                    Offer::Broken => {}
-                    Offer::NotFound => {
-                        rsync_local.remove(&i);
-                    }
-                    _ => {
-                        rsync_local.insert(i, bytes_of(o).unwrap());
+    }
+    sc
+}
+
+fn prop(sc: &Scenario, info: &mut CaseInfo) -> Verdict {
+    let j = Judge { id: "C10", sound: true, complete: true, points: true, ..Default::default() };
+    // extra oracle: the stored trust anchor files must decode (never replaced by undecodable bytes)
+    let v = judge(&j, sc, info, |world, obs| {
+        let dir = world.cache().join("stored/ta");
+        let mut bad = None;
+        fn walk(p: &std::path::Path, bad: &mut Option<String>) {
+            if let Ok(rd) = std::fs::read_dir(p) {
+                for e in rd.flatten() {
+                    let p = e.path();
+                    if p.is_dir() {
+                        walk(&p, bad);
+                    } else if let Ok(data) = std::fs::read(&p) {
+                        if rpki::repository::cert::Cert::decode(bytes::Bytes::from(data)).is_err() {
+                            *bad = Some(p.display().to_string());
+                        }
                     }
                 }
-                rsync_local.get(&i).map(|b| (b.clone(), *b == good || *b == other || *b == expired))
-            };
-            let had_stored = stored.contains_key(&i);
-            let effective: Option<Bytes> = match fetched {
-                Some((b, true)) => {
-                    stored.insert(i, b.clone());
-                    Some(b)
-                }
-                _ => {
-                    if had_stored {
-                        nontrivial = true; // failing download with a stored copy
-                    }
-                    stored.get(&i).cloned()
-                }
-            };
-            if matches!(o, Offer::OtherKey) {
-                nontrivial = true;
-            }
-            if effective.as_ref() == Some(&good) {
-                used = Some(i);
-                break;
             }
         }
-        // rsync copies of modules not touched in this run are cleaned up
-        rsync_local.retain(|i, _| attempted.contains(i));
-        // store cleanup drops stored TA files that are expired certificates (store.rs cleanup_ta)
-        stored.retain(|_, b| *b != expired);
-        // --- the engine
-        let out = match world.run_with(false, &ex, |config| {
-            config.disable_rrdp = false;
-            config.rrdp_root_certs = vec![tls_ca_path()];
-            config.rrdp_proxies = vec![srv.proxy_url()];
-            config.rrdp_timeout = Some(std::time::Duration::from_secs(60));
-        }) {
-            Ok(o) => o,
-            Err(e) => return Verdict::fail("C10/run-failed", format!("run {}: {}", r, e)),
-        };
-        let served: BTreeSet<MItem> = out.payload.items().into_iter().collect();
-        let offers_txt = format!("URIs {:?} (engine order {:?}), offers this run {:?}, history {:?}", uris, order, offers, &c.runs[..r]);
-        let kinds: String = offers.iter().map(|o| format!("{:?}", o)).collect::<Vec<_>>().join(",");
-        match used {
-            Some(i) => {
-                if served != expected_items {
-                    return Verdict::fail(format!("C10/ta-not-used/run={}/via={}", r, if decodable(offers[i]) && offers[i] == Offer::Match { "download" } else { "stored-copy" }), format!("run {}: URI #{} has an effective certificate with the TAL key (model), but the TAL's payload is missing: served {:?}; {}", r, i, served, offers_txt));
-                }
-            }
-            None => {
-                if !served.is_empty() {
-                    return Verdict::fail(format!("C10/ta-used-unexpectedly/offers={}", kinds), format!("run {}: no URI has an effective matching certificate (model) but payload {:?} was served; {}", r, served, offers_txt));
-                }
-            }
+        walk(&dir, &mut bad);
+        bad.map(|p| Verdict::fail("C10/stored-ta-undecodable", format!("step {}: stored trust anchor file {} does not decode", obs.n, p)))
+    });
+    let failing_download_with_store = sc.steps.iter().skip(1).any(|s| !s.ta_serve.is_empty() || !s.fail_modules.is_empty() || !s.foreign_tal_key.is_empty());
+    info.nontrivial = failing_download_with_store;
+    for s in &sc.steps {
+        for (_, u, st) in &s.ta_serve {
+            info.class(format!("uri{}_state{}", u.min(&2), st));
         }
-        // --- stored copies
-        let config = world.config();
-        let store = match routinator::store::Store::new(&config) {
-            Ok(s) => s,
-            Err(_) => return Verdict::Dropped("store_new_failed".into()),
-        };
-        for i in 0..n {
-            let turi = TalUri::from_string(uris[i].clone()).expect("tal uri");
-            let path = store.verif_ta_path(&turi);
-            let on_disk = std::fs::read(&path).ok().map(Bytes::from);
-            let want = stored.get(&i).cloned();
-            if on_disk != want {
-                let name = |b: &Option<Bytes>| match b {
-                    None => "nothing".to_string(),
-                    Some(x) if *x == good => "matching cert".into(),
-                    Some(x) if *x == other => "other-key cert".into(),
-                    Some(x) if *x == expired => "expired cert".into(),
-                    Some(x) if *x == garbage => "undecodable bytes".into(),
-                    Some(x) => format!("{} unknown bytes", x.len()),
-                };
-                let key = if on_disk.as_ref().map(|b| *b != good && *b != other && *b != expired).unwrap_or(false) { "C10/stored-copy-undecodable".to_string() } else { format!("C10/stored-copy-differs/has={}/want={}", name(&on_disk).replace(' ', "-"), name(&want).replace(' ', "-")) };
-                return Verdict::fail(key, format!("run {}: stored TA copy for URI #{} holds {} but the last decodable download is {}; {}", r, i, name(&on_disk), name(&want), offers_txt));
-            }
-        }
-        info.class(format!("run-outcome:{}", if used.is_some() { "ta-used" } else { "tal-contributes-nothing" }));
-        if let Some(i) = used {
-            info.class(format!("used-via:{}:{}", if c.https[i] { "https" } else { "rsync" }, if offers[i] == Offer::Match { "download" } else { "stored" }));
+        if !s.foreign_tal_key.is_empty() {
+            info.class("tal_rekeyed");
         }
     }
-    for o in c.runs.iter().flatten() {
-        info.class(format!("offer:{:?}", o));
+    for c in history_classes(sc) {
+        info.class(c);
     }
-    info.class(format!("uris:{}", n));
-    info.nt(nontrivial);
-    Verdict::Pass
+    v
 }
 
 pub fn run(ctx: &Ctx, rep: &mut Report, replay: Option<&serde_json::Value>) {
-    rep.rule("one TAL with 1-3 URIs (https via the in-harness HTTPS server / rsync via the fake rsync, mixed) over a one-CA repository with a ROA; 2-3 consecutive real engine runs over a persistent cache; per URI and run the server offers matching cert / self-signed cert for another key / undecodable bytes / expired cert with the TAL key / nothing / transfer failure; oracle: model of 'https first, download if it decodes else stored copy, first effective cert with the TAL key that validates' decides whether the TAL's payload is served, and the stored TA file per URI (routinator's own path function) must be the last decodable download (an expired certificate is removed again by the end-of-run cleanup); non-trivial = a failing or undecodable download while a stored copy exists, or a key mismatch; distinct by serialised case");
-    rep.assume("rsync TA URIs: the collector's local module copy persists over a failed transfer and is removed when the module was not touched in a run (as for every rsync module); E-rpki world + reference items as in C01");
-    ctx.shrink_iters.store(200, std::sync::atomic::Ordering::Relaxed);
+    rep.rule("E-rpki histories of 2-4 runs, 1-2 TALs with 1-3 rsync URIs each (in up to 3 modules); per URI and run the server offers the matching certificate / a certificate with another key / undecodable bytes / an expired certificate with the right key / nothing; modules fail, runs go offline, TAL files are re-keyed between runs; oracle: reference model of TA selection (URIs in order; a decodable download replaces the stored copy of that URI, otherwise the stored copy is used; first certificate matching the TAL key that validates is used, else the TAL contributes nothing) judged through payload equality and accepted/rejected point counts, plus: every stored trust anchor file decodes; non-trivial = a later run with a non-matching/failed download, unreachable module or re-keyed TAL (stored copy in play); distinct by serialised scenario");
+    rep.assume("leg (a) uses rsync URIs only; leg (b) (module c10h) mixes https URIs served by the in-harness HTTPS server with rsync URIs for a single TAL");
+    ctx.shrink_iters.store(120, std::sync::atomic::Ordering::Relaxed);
     if let Some(v) = replay {
-        let t: Tagged<Case> = serde_json::from_value(v.clone()).expect("replay");
+        let t: Tagged<serde_json::Value> = serde_json::from_value(v.clone()).expect("replay");
+        if t.sub == "histories" {
+            // mixed https / rsync leg
+            crate::c10h::run(ctx, rep, replay);
+            return;
+        }
+        let t: Tagged<Scenario> = serde_json::from_value(v.clone()).expect("replay");
         run_case(ctx, rep, &t.sub, &t.case, prop);
         return;
     }
-    run_prop_par(ctx, rep, "histories", ctx.tier.pick(160, 2500), 8, case_strategy, prop);
+    run_prop_par(ctx, rep, "history", ctx.tier.pick(240, 6000), 8, || genome(260).prop_map(|w| scenario(&w)), prop);
+    // second leg: one TAL with mixed https (in-harness HTTPS server) and rsync URIs
+    crate::c10h::run(ctx, rep, None);
 }
